@@ -190,8 +190,8 @@ pub fn run(ctx: &Ctx) -> Outcome {
     if ctx.tier == Tier::Thorough {
         // 4-node trees: a seeded third (the full set is ~10^5 patterns x 259 texts x ~60 calls)
         let mut rng = crate::rng::Rng::new(ctx.seed ^ 0xC04);
-        let four: Vec<Node> = g.of_size(4).into_iter().filter(|_| rng.chance(1, 3)).collect();
-        describe = format!("all common-syntax trees of <= 3 nodes ({}) plus a seeded third of the 4-node trees ({}) plus 60000 seeded random trees of 5-9 nodes", patterns.len(), four.len());
+        let four: Vec<Node> = g.of_size(4).into_iter().filter(|_| rng.chance(1, 2)).collect();
+        describe = format!("all common-syntax trees of <= 3 nodes ({}) plus a seeded half of the 4-node trees ({}) plus 60000 seeded random trees of 5-9 nodes", patterns.len(), four.len());
         patterns.extend(four);
     } else {
         describe = format!("all common-syntax trees of <= 3 nodes ({}) plus 4000 seeded random trees of 5-9 nodes", patterns.len());
